@@ -570,3 +570,10 @@ M("C31", "SparseOperator.__deepcopy__ reads Pulser-created fields the constructo
 M("C32", "random starts drawn into one shared buffer", "kill",
   [("emu_mps/optimatrix/optimiser.py", "    rnd_permutations = itertools.chain(\n        [torch.arange(L)],  # identity permutation\n        [torch.randperm(L) for _ in range(samples)],  # list of random permutations\n    )",
     "    start_perm = torch.arange(L)\n    rnd_permutations = itertools.chain(\n        [start_perm],\n        (torch.randperm(L, out=start_perm) for _ in range(samples)),\n    )")], "ARGMIN")
+M("C14", "default evaluation times leak to observables with their own times", "kill",
+  [(IMPL, "        is_default_eval_time = times is None and self.config.is_evaluation_time(\n            t, tol=tolerance\n        )", "        is_default_eval_time = self.config.is_evaluation_time(t, tol=tolerance)")], "ONCE-filter")
+M("C21", "emu-sv: default evaluation times leak to observables with their own times", "kill",
+  [(SVI, "        is_default_eval_time = times is None and self._config.is_evaluation_time(\n            t, tol=tolerance\n        )", "        is_default_eval_time = self._config.is_evaluation_time(t, tol=tolerance)")], "ONCE-filter")
+M("C14", "twin: evaluation-time filter written with early returns", "twin",
+  [(IMPL, "        is_observable_eval_time = (\n            times is not None\n            and self.config.is_time_in_evaluation_times(t, times, tol=tolerance)\n        )\n",
+    "        if times is not None:\n            return self.config.is_time_in_evaluation_times(t, times, tol=tolerance)\n        is_observable_eval_time = False\n")])
